@@ -143,6 +143,11 @@ func compare[T int | int32 | int64 | int16 | int8 | uint | uint32 | uint64 | uin
 	switch t := v.(type) {
 	case int, int32, int64, int16, int8, uint, uint32, uint64, uint16, byte, float32, float64:
 		{
+			if _, ok := t.(T); !ok {
+				// operands of different numeric types are compared by value, not after
+				// converting the right operand to the left operand's type
+				return Cmp(As[float64](a), As[float64](t))
+			}
 			return Cmp(a, t)
 		}
 	case string:
